@@ -239,6 +239,7 @@ pub fn run(o: &Opts) -> serde_json::Value {
                 Step::Stream { n, .. } => {
                     writeln!(f, "{}", json!({"t": "Raw", "k": so.o.k, "n": n, "b": so.o.b, "p": so.o.p, "q": so.o.q})).unwrap();
                 }
+                Step::ReadToEndAny => {}
                 Step::ReadToEnd | Step::ReadText => {
                     let txt = matches!(eff, Step::ReadText) && matches!(src, Src::Slice | Src::Str);
                     writeln!(f, "{}", json!({"t": "Rte", "k": so.o.k, "e": so.o.e, "b": so.o.b, "s": so.s.map(|(a, b)| vec![a, b]).unwrap_or_default(),
